@@ -511,6 +511,10 @@ func (u *Unit) nameBig(st *State, v Value, hint string) Value {
 			}
 			n := u.d.Fresh("v_"+hint, t.Sort)
 			st.assume(Eq(n, t))
+			if u.defs == nil {
+				u.defs = map[string]Term{}
+			}
+			u.defs[n.S] = t
 			out.L[i] = n
 		}
 	}
